@@ -99,6 +99,9 @@ def gen_sentences(tier):
         yield f"{t} {U}STORE 2 -FLAGS \\Seen \\Deleted", {"command": "store", "uid": bool(U), "msg_set": [2], "store_action": "remove", "silent": False, "flags": ["\\Seen", "\\Deleted"]}
         yield f"{t} {U}STORE 1:2 FLAGS.SILENT kw $Fwd \\Draft", {"command": "store", "uid": bool(U), "msg_set": [(1, 2)], "store_action": "replace", "silent": True,
                                                                 "flags": ["kw", "$Fwd", "\\Draft"]}
+    # system flag names are case-insensitive
+    yield f"{t} STORE 1 +FLAGS (\\seen \\DELETED \\answered kW)", {"command": "store", "uid": False, "msg_set": [1], "store_action": "add", "silent": False,
+                                                              "flags": ["\\Seen", "\\Deleted", "\\Answered", "kW"]}
     # "}" is not an atom-special
     for c in ("SELECT", "CREATE", "DELETE"):
         yield f"{t} {c} a}}b", {"command": c.lower(), "mailbox_name": "a}b"}
